@@ -31,7 +31,7 @@ ASSUMPTIONS = [
 ]
 
 RAWS = [["2-3-4", "-5"], ["-2**2", "-4"], ["2**3**2", "512"], ["6/3*2", "4"], ["2+3*4", "14"], ["-3**2", "-9"], ["8/2/2", "2"], ["2*3**2", "18"],
-        ["1-2*3", "-5"], ["10-4+3", "9"], ["2**-1", "1/2"], ["1/2**2", "1/4"], ["(1+2)*3", "9"], ["2*(3-5)", "-4"]]
+        ["1-2*3", "-5"], ["10-4+3", "9"], ["2**-1", "1/2"], ["1/2**2", "1/4"], ["(1+2)*3", "9"], ["2*(3-5)", "-4"], ["(-2)**2", "4"], ["3*(-2)**2", "12"], ["(-1)**3", "-1"], ["((-3))**2", "9"]]
 OPERATORS = ["drop_end", "drop_colon", "open_paren", "dangling_operator", "two_statements_one_line", "elif_without_if", "bad_comparison",
              "empty_branch", "prob_without_alternative", "stray_brace", "drop_while"]
 
@@ -301,7 +301,12 @@ def run_case(case, tier="quick"):
     except pd.CaseTimeout:
         return dict(base, status="inconclusive", bucket="polar_time_limit")
     except Exception as e:
-        return dict(base, status="refusal", bucket=pd.refusal_bucket(e), detail=str(e)[:200])
+        b = pd.refusal_bucket(e)
+        if "inputparser" in b or "lark" in type(e).__module__:
+            # the canonical rendering of a generated program is inside the documented syntax: a parse error is a violation
+            return dict(base, status="violation", bucket="valid_text_rejected_by_parser:" + type(e).__name__,
+                        detail={"textA": textA, "error": str(e)[:300]})
+        return dict(base, status="refusal", bucket=b, detail=str(e)[:200])
     try:
         resB = _analyse(textB, case["goals"], tl)
     except pd.CaseTimeout:
